@@ -361,6 +361,46 @@ pub fn add_sections(rep: &mut Report, prop: &str, thorough: bool, conformant_onl
         run::levels(&sec, &space, if thorough { 5 } else { 3 }, &|c, _| judge(prop, &known, c, &iss, true));
         rep.add(sec);
     }
+    if prop == "C08" {
+        // histories on one thread: a request that FAILS at the signing step (a remote key that refuses), then a request that
+        // succeeds: the second list says exactly what was asked for it - nothing of the failed request is left behind.
+        // All ordered pairs of revoked lists (the failed one, the judged one) x 2 kinds of failure.
+        use crate::keys::{scripted_key, FailKind, SignScript};
+        let lists: Vec<Vec<RevokedSpec>> = {
+            let at = near_atoms();
+            let mut v: Vec<Vec<RevokedSpec>> = vec![vec![]];
+            for a in at.iter().take(5) {
+                v.push(vec![a.clone()]);
+            }
+            v.push(vec![at[0].clone(), at[1].clone()]);
+            v.push((0..40u8).map(|i| RevokedSpec { serial: vec![0x40, i], time: TimeSpec::ymd(2022, 2, 2), reason: Some(1), invalidity: None }).collect());
+            v
+        };
+        let cases: Vec<(usize, usize, u8)> = (0..lists.len()).flat_map(|a| (0..lists.len()).flat_map(move |b| (0..2u8).map(move |k| (a, b, k)))).collect();
+        let sec = Section::new("histories/after a failing request", &format!("{} ordered pairs of revoked lists x 2 kinds of signer failure: the first request fails at the signing step, the second (same thread, other issuer key) is judged in full", lists.len() * lists.len())).with_deadline(cap);
+        run::sweep_cases(&sec, &cases, &|c| format!("failed list #{} then list #{} (failure kind {})", c.0, c.1, c.2), &|c| {
+            let mut out = Outcome::default();
+            let raw = fake_pub(Alg::Ed25519, 0x44);
+            let kind = if c.2 == 0 { FailKind::RemoteKeyError } else { FailKind::RingUnspecified };
+            // the failing issuer's key signs its own certificate first (script position 0), then refuses
+            let (fkp, _l) = scripted_key(Alg::Ed25519, &raw, vec![SignScript::Stub, SignScript::Fail(kind), SignScript::Fail(kind)], None);
+            let Ok(failing) = make_issuer(&DnSpec::cn("failing issuer"), &KeyIdSpec::Sha256, &[], fkp, KeyPub { alg: Alg::Ed25519, raw }) else { return out };
+            let first = CrlState { revoked: lists[c.0].clone(), ..CrlState::default() };
+            let ev1 = eval_crl(&first, &failing);
+            out.transitions += ev1.transitions;
+            if ev1.der.is_some() {
+                out.findings.push(Finding::new("CRL-NOT-REFUSED", "signed_by with a refusing signer", "a revocation list was returned although its signer failed"));
+            }
+            let second = CrlCase { st: CrlState { revoked: lists[c.1].clone(), ..CrlState::default() }, issuer: 0 };
+            let o2 = judge(prop, &known, &second, &iss, true);
+            out.transitions += o2.transitions;
+            out.digest = o2.digest;
+            out.findings.extend(o2.findings);
+            out.known = o2.known;
+            out
+        });
+        rep.add(sec);
+    }
     {
         // revoked lists: all 594 atoms as singletons, all ordered pairs of the near atoms, triples over 5 atoms
         let all = atoms();
